@@ -133,7 +133,13 @@ func c05Tables() [][]bt.Op {
 		T("r2", mset("f", "b", 2000, "y")),
 	)
 	t3 := append(setupT(), T("r1", mset("f", "a", 1000, "x")))
-	return [][]bt.Op{t1, t2, t3, setupT()}
+	// one family, several columns and versions: positional filters after an interleave depend on the
+	// (documented) qualifier order of the merged row
+	t4 := append(setupT(),
+		T("r1", mset("f", "a", 2000, "a2"), mset("f", "a", 1000, "a1"), mset("f", "b", 1000, "b1"), mset("f", "c", 2000, "c2"), mset("f", "c", 1000, "c1"), mset("f", "d", 1000, "d1")),
+		T("r2", mset("f", "c", 1000, "x"), mset("f", "a", 1000, "y")),
+	)
+	return [][]bt.Op{t1, t2, t3, setupT(), t4}
 }
 
 func init() {
@@ -191,6 +197,20 @@ func c05Filters(thorough bool) []*bt.Filter {
 					fs = append(fs, &bt.Filter{Kind: "cond", Pred: &bt.Filter{Kind: "interleave", Subs: []*bt.Filter{a, b}}, False: d})
 					fs = append(fs, &bt.Filter{Kind: "cond", Pred: &bt.Filter{Kind: "cond", Pred: a, True: b}, True: d, False: &bt.Filter{Kind: "strip"}})
 				}
+			}
+		}
+	}
+	// interleave branches that reach columns out of qualifier order, followed by positional filters
+	bq := []*bt.Filter{re("qual_re", "a"), re("qual_re", "b"), re("qual_re", "c"), re("qual_re", "d"), re("qual_re", "c|d"), fn("row_offset", 2), fn("row_offset", 4), fn("row_limit", 1),
+		{Kind: "col_range", Fam: "f", SK: 1, Start: []byte("c")}, {Kind: "ts_range", T0: 2000}, re("val_re", "a1|d1")}
+	pos := []*bt.Filter{fn("row_limit", 1), fn("row_limit", 2), fn("row_limit", 3), fn("row_offset", 1), fn("row_offset", 2), fn("col_limit", 1)}
+	for _, a := range bq {
+		for _, b := range bq {
+			for _, d := range pos {
+				fs = append(fs, &bt.Filter{Kind: "chain", Subs: []*bt.Filter{{Kind: "interleave", Subs: []*bt.Filter{a, b}}, d}})
+			}
+			for _, e := range bq[:5] {
+				fs = append(fs, &bt.Filter{Kind: "chain", Subs: []*bt.Filter{{Kind: "interleave", Subs: []*bt.Filter{a, b, e}}, fn("row_limit", 2)}})
 			}
 		}
 	}
